@@ -193,6 +193,22 @@ class beta_norm_macro(Macro):
         assert args is None, "beta_norm_macro"
         return pts[0].on_prop(beta_norm_conv())
 
+def exists_elim_pt(ex_pt, all_pt):
+    """Given ex_pt: ?x1 ... xn. Q x1 ... xn and all_pt: !x1 ... xn. Q x1 ... xn --> C
+    (with n >= 1), return a proof of C. The case n = 1 is theorem exE. For n > 1 the
+    outermost quantifier is eliminated by exE as well, with the remaining ones
+    handled in the same way under it.
+
+    """
+    if all_pt.prop.is_forall() and all_pt.prop.arg.body.is_forall() and \
+       ex_pt.prop.is_exists() and ex_pt.prop.arg.body.is_exists():
+        used = [v.name for t in all_pt.hyps + ex_pt.hyps + (all_pt.prop, ex_pt.prop) for v in t.get_vars()]
+        v = Var(name.get_variant_name(all_pt.prop.arg.var_name, used), all_pt.prop.arg.var_T)
+        inner_ex = ProofTerm.assume(ex_pt.prop.arg.subst_bound(v))
+        inner_pt = exists_elim_pt(inner_ex, all_pt.forall_elim(v))
+        all_pt = inner_pt.implies_intr(inner_ex.prop).forall_intr(v)
+    return apply_theorem('exE', ex_pt, all_pt)
+
 class intros_macro(Macro):
     """Introduce assumptions and variables."""
     def __init__(self):
@@ -213,7 +229,7 @@ class intros_macro(Macro):
                 pt = pt.forall_intr(intro.prop.arg)
             elif len(args) > 0 and intro.th.prop == args[0]:  # exists case
                 assert intro.prop.is_exists(), "intros_macro"
-                pt = apply_theorem('exE', intro, pt)
+                pt = exists_elim_pt(intro, pt)
                 args = args[1:]
             else:  # assume case
                 assert len(intro.th.hyps) == 1 and intro.th.hyps[0] == intro.th.prop, \
